@@ -480,7 +480,10 @@ def virtual_body(cfg, K, vmp, history):
             MazeDataset.generate(make_cfg("gen_dfs", {}, 5, 1, {}, seed=3))
         elif history == "after_serial_opts":
             # a serial generation of the same shape WITH endpoint options right before: nothing of them may stick
-            MazeDataset.generate(make_cfg(cfg.maze_ctor.__name__, {}, cfg.grid_n, 2, dict(allowed_start=[(0, 0)], allowed_end=[(0, 0), (0, 1)], deadend_start=True), seed=9))
+            try:
+                MazeDataset.generate(make_cfg(cfg.maze_ctor.__name__, {}, cfg.grid_n, 2, dict(allowed_start=[(0, 0)], allowed_end=[(0, 0), (0, 1)]), seed=9))
+            except ValueError:
+                pass  # the earlier generation is only history (its own documented errors are judged elsewhere)
         elif history == "after_parallel_neighbour":
             # the same generator and grid with default arguments and default endpoint options, through a pool of the same size:
             # whatever a worker (or the parent) keeps from it must not leak into the generation that follows
